@@ -727,6 +727,9 @@ def run(ctx):
     ym_ops, years = gen_year_month_ops(ctx)
     ctx.correspond("yearmonth.to_date_interval", ym_ops, impl, oracle=oracle, neighbours=neighbours)
     ctx.check_cases("yearmonth.year-partition", years, check_year_partition)
+    import c18_chains
+    ctx.check_cases("interval.chains (results of & and | used as operands; simultaneous iterations)",
+                    c18_chains.gen_cases(ctx, ctx.scale(700, 40_000)), c18_chains.check)
     replies = {}
     for g, f in zip(groups, futures):
         replies.update(zip(g, f.result()))
@@ -741,6 +744,10 @@ def run(ctx):
 
 
 def replay_op(op, failure):
+    if op.startswith("(") and failure.get("key", "").startswith("interval-"):
+        import ast
+        import c18_chains
+        return c18_chains.check(ast.literal_eval(op))
     if op.startswith("("):
         import ast
         return check_year_partition(ast.literal_eval(op))
